@@ -379,6 +379,7 @@ theorem dense_add (hG : GrowthOK) (s : DStore) (h : Inv s) (hb : Bounded32 s) (c
     ∃ s', (Store.d s).addWithCount i w = some (.d s') ∧ Inv s' ∧ Bounded32 s' ∧
       (Store.d s').Refines (c.add i w) := by
   obtain ⟨s', h1, h2, h3, _⟩ := DStore.addWithCount_ok hG s h i w hw
+    (DStore.spanOK_of_bounded32 s h hb i i hi hi)
   have hb' := DStore.addWithCount_bounded32 hG s h hb i w hw hi s' h1
   refine ⟨s', by simp [Store.addWithCount, h1], h2, hb', ?_⟩
   obtain ⟨c', hc', hl'⟩ := refines_dense s' h2 hb'
